@@ -231,6 +231,58 @@ def check_line_semantics(ctx, what, replay, sem, is_match, find, shortest, allm)
     return ok
 
 
+def strip_crlf_two_pass(hirs, bans):
+    """model pass \\r, rebuild through regex-syntax (harness 1109), model pass \\n.
+    returns per HIR: (ban_result, strip_result) as parsed values; strip_result = [0, hir] or [1, kind, byte]"""
+    o1 = vlib.model(1107, [vlist([h, "0", "13", str(b)]) for h, b in zip(hirs, bans)])
+    res = [None] * len(hirs)
+    todo, todo_idx = [], []
+    for i, o in enumerate(o1):
+        if o.startswith(("MISSING", "STACK", "PARSEFAIL")):
+            res[i] = (None, None)
+            continue
+        a = L(parse_val(o))
+        st = L(a[0])
+        if st[0] == 0:
+            todo.append(unparse(st[1]))
+            todo_idx.append(i)
+        res[i] = (L(a[1]), st)
+    normed = vlib.code(1109, todo)
+    ok_idx = [i for i, n_ in zip(todo_idx, normed) if not n_.startswith(("PANIC", "MISSING", "PARSEFAIL"))]
+    o2 = vlib.model(1107, [vlist([n_, "0", "10", "0"]) for n_ in normed if not n_.startswith(("PANIC", "MISSING", "PARSEFAIL"))])
+    for i, o in zip(ok_idx, o2):
+        if o.startswith(("MISSING", "STACK", "PARSEFAIL")):
+            res[i] = (res[i][0], None)
+        else:
+            res[i] = (res[i][0], L(L(parse_val(o))[0]))
+    return res
+
+
+def model_build(ctx, opts, translated, m_in):
+    """the builder model per case; CRLF cases are driven pass by pass with regex-syntax's rebuild in between
+    (Model/RegexBuild.v strip_from_match's [norm])"""
+    out = vlib.model(1101, m_in)
+    ci = [k for k, o in enumerate(opts) if o["crlf"]]
+    if not ci:
+        return out
+    two = strip_crlf_two_pass([translated[k] for k in ci], [o["ban"] if (o := opts[k])["ban"] is not None else 0 for k in ci])
+    wrap_in, wrap_idx = [], []
+    for k, (ban, st) in zip(ci, two):
+        if st is None:
+            out[k] = "MISSING"
+        elif opts[k]["ban"] is not None and ban and ban[0] == 1:
+            out[k] = unparse(ban)
+        elif st[0] == 1:
+            out[k] = unparse(st)
+        else:
+            o2 = dict(opts[k], ban=None)
+            wrap_in.append(vlist([opts_val(o2), unparse(st[1])]))
+            wrap_idx.append(k)
+    for k, o in zip(wrap_idx, vlib.model(1101, wrap_in)):
+        out[k] = o
+    return out
+
+
 def run_builder_cases(ctx, cases, stats):
     """cases: list of dict(patterns=[str], opts=dict, lines=[bytes])"""
     rng = ctx.rng
@@ -250,7 +302,7 @@ def run_builder_cases(ctx, cases, stats):
         if tr:
             m_in.append(vlist([opts_val(cases[i]["opts"]), unparse(tr[0])]))
             m_idx.append(i)
-    mo = vlib.model(1101, m_in)
+    mo = model_build(ctx, [cases[i]["opts"] for i in m_idx], [unparse(L(parsed[i][0])[0]) for i in m_idx], m_in)
     cmp_in, cmp_idx = [], []
     for k, i in enumerate(m_idx):
         c = cases[i]
@@ -481,8 +533,13 @@ def run_hir_cases(ctx, n, stats):
     o2 = vlib.model(1102, m2)
     o3 = vlib.model(1103, m3)
     cmp_in, cmp_rep = [], []
+    crlf_ids = [(i, v) for (i, v) in idx if cases[i][1]]
+    crlf_fix = {}
+    for (i, v), (_, st) in zip(crlf_ids, strip_crlf_two_pass([unparse(v[0]) for i, v in crlf_ids], [0] * len(crlf_ids))):
+        crlf_fix[i] = st
     for k, (i, v) in enumerate(idx):
         rep = dict(kind=1107, case=cin[i], normalised=unparse(v[0])[:3000])
+        h, crlf, byte, ban, lines = cases[i]
         if any(x.startswith(("MISSING", "STACK", "PARSEFAIL")) for x in (o1[k], o2[k], o3[k])):
             ctx.violation("model failed on HIR case: %s %s %s" % (o1[k][:20], o2[k][:20], o3[k][:20]), rep, nfi=True)
             continue
@@ -492,6 +549,8 @@ def run_hir_cases(ctx, n, stats):
         hir_feature_stats(ctx, v[0], stats.setdefault("hir_nodes_arbitrary", {}))
         if list(mb) != list(cb):
             ctx.violation("ban::check differs: model %s code %s" % (mb, cb), rep, nfi=True)
+        if crlf_fix.get(i) is not None:
+            ms = crlf_fix[i]
         if ms[0] != cs[0] or (ms[0] == 1 and list(ms) != list(cs)):
             ctx.violation("strip_from_match verdict differs: model %s code %s" % (unparse(ms)[:100], unparse(cs)[:100]), rep, nfi=True)
         elif ms[0] == 0:
@@ -591,6 +650,7 @@ CORPUS = [
     (["\\x00"], dict(ban=0)), (["[\\x00]"], dict(ban=0)), (["a\\x00?"], dict(ban=0)), (["abc"], dict(lt=0)),
     (["[^a]"], dict(lt=0)), (["\\w{3}bar"], {}), (["(foo|bar)\\s+baz"], {}), (["a{2,}b"], {}), (["(?i)foobar\\d"], {}),
     (["\\pL{2}quux"], {}), (["a", "b\\d"], {}), (["x*yz"], {}), (["(?:ab){11}"], {}), (["[a-k]z"], {}), (["[a-j]zz"], {}),
+    (["Z|[\\r\\n]"], dict(crlf=True, word=True)), (["ZZ|[\\r\\n]"], dict(crlf=True)), (["Z|\\n"], {}), (["ZZ|\\n"], {}),
     (["foo\\w*?bar|quuux"], {}), (["\\bsherlock\\b"], {}), (["a|"], {}), (["(a|ab)(c|bcd)(d*)"], {}),
 ]
 
